@@ -489,7 +489,9 @@ def run_forward(prog, rep, which=('Tag', 'MultiTag'), mode='RangeMatch', rid='R-
     for f in sorted(prog.funcs.values(), key=lambda f: (f.file, f.line)):
         if f.body is None or (f.q.startswith('nix::hdf5::') and not backend) or f.q.startswith('std::') or f.q.startswith('boost::'):
             continue
-        mp = [p for p in f.params if mode in p['type'] and 'vector' not in p['type']]
+        listmode = mode.startswith('list:')
+        mkey = mode[5:] if listmode else mode
+        mp = [p for p in f.params if mkey in p['type'] and (('vector' in p['type']) == listmode)]
         if len(mp) != 1:
             continue
         if which and not any(w in f.sig or w in f.q for w in which):
@@ -497,7 +499,7 @@ def run_forward(prog, rep, which=('Tag', 'MultiTag'), mode='RangeMatch', rid='R-
         mv = ('v', mp[0]['lid'], mp[0]['name'])
         for c in f.calls():
             sig = split_sig_types(c.callee.get('sig') or '()')
-            idx = [i for i, t in enumerate(sig) if mode in t and 'vector' not in t]
+            idx = [i for i, t in enumerate(sig) if mkey in t and (('vector' in t) == listmode)]
             if not idx or not ((c.callee.get('q') or '').startswith('nix::') or prog.resolve_call(c)):
                 continue
             args = real_args(c)
